@@ -424,6 +424,11 @@ def configs(tier: str):
                     out.append(cfg10(span=span, n=n, op='set', a=a, stage=stage))
                 for w in ('attr', 'label', 'slice', 'whole'):
                     out.append(cfg10(span=span, n=n, op='roundtrip', wpath=w, pos=n - 1, stage=stage))
+    # None asked for as a LABEL on spans that do not contain it: an absent label like any other (KeyError), for get and set
+    for span in ('range', 'nd_int', 'list_str', 'list_mixed'):
+        for n in (1, 3):
+            out.append(cfg10(span=span, n=n, op='get', a=None))
+            out.append(cfg10(span=span, n=n, op='set', a=None))
     # labels of ANOTHER TYPE that look like a present label: a non-integral float or a digit string on integer spans, a
     # present string with a suffix / a prefix of one on string spans (a locator that converts the label to the span's
     # element type would alias a present period)
